@@ -125,7 +125,7 @@ class LoggedFileIO(io.FileIO):
         if ctl is None or self._vpath is None or getattr(_tls, "inside", 0):
             return super().write(b)
         n = len(b) if not isinstance(b, memoryview) else b.nbytes
-        action = ctl.before(_tls.actor, "write", self._vpath, {"n": n, "fd": self.fileno() if not self.closed else -1})
+        action = ctl.before(_tls.actor, "write", self._vpath, {"n": n, "fd": self.fileno() if not self.closed else -1, "data": b, "file": self})
         if action is SKIP:
             return n
         with _expect:
@@ -151,6 +151,12 @@ class LoggedFileIO(io.FileIO):
             except Exception:
                 pass
         return super().close()
+
+
+def raw_write(f, data):
+    """Un-interposed write(2) on a LoggedFileIO (used to model a write that only partly happened)."""
+    with _expect:
+        return io.FileIO.write(f, data)
 
 
 def _mode_writes(mode):
